@@ -56,6 +56,7 @@ pub struct RunInfo {
     pub diag_after_multibyte: usize,
     pub ref_diags: usize,
     pub r6_names_checked: usize,
+    pub r6_user_first: usize,
     pub g3_checked: usize,
     pub cycle_refusals: usize,
     pub sem_diag_kinds: BTreeSet<String>,
@@ -176,6 +177,47 @@ fn flatten_lists<'t>(t: &'t ListTree, out: &mut Vec<&'t ListTree>) {
     for c in &t.children {
         flatten_lists(c, out);
     }
+}
+
+/// `gate NAME(p, …) q, … {` as the first statement of `text` (after an optional version line):
+/// (NAME, number of parameters, number of qubits).
+fn leading_user_gate(text: &str) -> Option<(String, usize, usize)> {
+    let toks: Vec<String> = std::panic::catch_unwind(|| {
+        let l = oq3_parser::LexedStr::new(text);
+        (0..l.len())
+            .filter(|i| !matches!(l.kind(*i), oq3_syntax::SyntaxKind::WHITESPACE | oq3_syntax::SyntaxKind::COMMENT))
+            .map(|i| l.text(i).to_string())
+            .collect()
+    })
+    .ok()?;
+    let mut i = 0;
+    if toks.first().is_some_and(|t| t.starts_with("OPENQASM")) {
+        i = toks.iter().position(|t| t == ";")? + 1;
+    }
+    if toks.get(i)? != "gate" {
+        return None;
+    }
+    let name = toks.get(i + 1)?.clone();
+    i += 2;
+    let mut np = 0;
+    if toks.get(i)? == "(" {
+        i += 1;
+        while toks.get(i)? != ")" {
+            if toks[i] != "," {
+                np += 1;
+            }
+            i += 1;
+        }
+        i += 1;
+    }
+    let mut nq = 0;
+    while toks.get(i)? != "{" {
+        if toks[i] != "," {
+            nq += 1;
+        }
+        i += 1;
+    }
+    Some((name, np, nq))
 }
 
 /// Names for which the project's own text has something that looks like a declaration (used
@@ -1309,6 +1351,29 @@ pub fn judge(w: &World, run: &Run, focus: Option<&str>) -> (Verdict, RunInfo) {
                         format!(
                             "after `include \"stdgates.inc\";` the name `{}` does not resolve to a gate with {} parameters and {} qubits",
                             name, np, nq
+                        ),
+                    ));
+            }
+        }
+    }
+
+    // a gate named like a standard one that is the first statement of the main text keeps its
+    // binding: the library's definition of that name, wherever it is included, is a redeclaration
+    if let Some((name, np, nq)) = m.insts.first().and_then(|i| i.text.as_deref()).and_then(leading_user_gate) {
+        if STDGATES.iter().any(|g| g.0 == name) {
+            info.r6_user_first += 1;
+            let ok = match obs.symtab.lookup(&name) {
+                Ok(rec) => *rec.symbol_type() == Type::Gate(np, nq),
+                Err(_) => false,
+            };
+            if !ok {
+                soft!(info, focus, viol(
+                        "R6",
+                        C18,
+                        "user-gate-rebound",
+                        format!(
+                            "the main text starts by defining gate `{}` with {} parameters and {} qubits; at the end the name resolves to {:?}",
+                            name, np, nq, obs.symtab.lookup(&name).ok().map(|r| r.symbol_type().clone())
                         ),
                     ));
             }
